@@ -17,7 +17,6 @@ import (
 	"os"
 	"path/filepath"
 	"runtime/pprof"
-	"sort"
 	"strings"
 
 	"github.com/ErdemOzgen/blackdagger/internal/zzverif/vlib"
@@ -34,6 +33,9 @@ type op struct {
 func (o op) String() string {
 	switch o.K {
 	case "save":
+		if o.Via == "api" {
+			return fmt.Sprintf("save(%q,%s)/api", o.A, o.B)
+		}
 		return fmt.Sprintf("save(%q,%s)", o.A, o.B)
 	case "rename":
 		return fmt.Sprintf("rename(%q->%q)/%s", o.A, o.B, o.Via)
@@ -53,7 +55,8 @@ func opsString(h []op) string {
 	return strings.Join(s, " ; ")
 }
 
-var names = []string{"a", "b", "a b", "ab", "A"} // "A": differs from "a" only in letter case (distinct files on a case-sensitive file system)
+// names: the model keys (stored definitions) of the world that is being searched (world.go).
+var names []string
 
 // alphabet, simplest first (so that the first counterexample is the shortest and plainest).
 func alphabet(m *mstate) []op {
@@ -91,8 +94,9 @@ func alphabet(m *mstate) []op {
 }
 
 type member struct {
-	Hist []op `json:"hist"`
-	Op   op   `json:"op"`
+	World string `json:"world,omitempty"` // "" = classic (one spelling per name) | spell | spell-wide
+	Hist  []op   `json:"hist"`
+	Op    op     `json:"op"`
 }
 
 type snode struct {
@@ -106,12 +110,20 @@ type checker struct {
 	fl   *vlib.Flags
 	n    int
 	work string
+	// what judge tolerated in the last member (unusual spelling refused)
+	tolerated     string
+	prefixRefused bool
+	performed     bool // the member's operation was accepted (or answered refused with the full effect)
 }
 
 // runMember executes hist+op on a fresh real instance. It returns the signature ("" = conforms),
 // a detail text, and whether the member could be validated (false: a prefix operation already diverged,
 // which is the business of the member that owns that prefix edge).
 func (c *checker) runMember(mb member) (sig, detail string, validated bool, applied int) {
+	if W == nil || W.ID != worldByID(mb.World).ID {
+		setWorld(worldByID(mb.World))
+	}
+	c.tolerated, c.prefixRefused, c.performed = "", false, false
 	c.n++
 	dir := filepath.Join(c.work, fmt.Sprintf("m%d", c.n))
 	in, err := newInst(dir)
@@ -131,15 +143,24 @@ func (c *checker) runMember(mb member) (sig, detail string, validated bool, appl
 		next, want := m.apply(o)
 		got, info := in.apply(o)
 		applied++
-		if s, _ := compare(o, m, next, want, got, info, in.observe(next.universe())); s != "" {
+		s, _, tol := judge(o, m, next, want, got, info, in.observe(next.universe()))
+		if s != "" {
 			return "", fmt.Sprintf("prefix op %d (%s) diverged: %s", i, o, s), false, applied
+		}
+		if tol == tolRefusedUnchanged {
+			// an unusual spelling that was refused and changed nothing: the model follows the real installation
+			// (the member then checks its operation in that state; does not happen when the history is spelled canonically)
+			next = m.clone()
+			c.prefixRefused = true
 		}
 		m = next
 	}
 	next, want := m.apply(mb.Op)
 	got, info := in.apply(mb.Op)
 	applied++
-	s, d := compare(mb.Op, m, next, want, got, info, in.observe(next.universe()))
+	s, d, tol := judge(mb.Op, m, next, want, got, info, in.observe(next.universe()))
+	c.tolerated = tol
+	c.performed = got || tol == tolRefusedPerformed
 	if s != "" {
 		return s, fmt.Sprintf("history [%s] then %s: %s", opsString(mb.Hist), mb.Op, d), true, applied
 	}
@@ -168,7 +189,17 @@ func (c *checker) check(mb member) {
 		return
 	}
 	res.Validated++
+	if out := outsideFacet(mb.Op); out != "" && c.performed && sig == "" {
+		// not a C18 verdict (the property does not speak about where a name may point), but never to be hidden
+		res.Count("operated_on_a_file_OUTSIDE_the_DAGs_directory:"+mb.Op.K+"/via="+viaOf(mb.Op)+out, 1)
+	}
 	if sig == "" {
+		if c.tolerated != "" {
+			res.Count(c.tolerated, 1)
+		}
+		if c.prefixRefused {
+			res.Count("members_checked_in_another_state_because_an_unusual_spelling_in_the_history_was_refused", 1)
+		}
 		return
 	}
 	// a counterexample is re-run twice before it is believed
@@ -180,6 +211,71 @@ func (c *checker) check(mb member) {
 		}
 	}
 	res.Violate(sig, detail, mb)
+}
+
+// search: breadth-first search on the model of one world; every edge is executed on the real code by exactly one shard.
+// edge0 / state0 continue the numbering of the previous search (they only deal members to shards).
+func (c *checker) search(w *world, depth int, alpha func(*mstate) []op, edge0, state0 int) (edges, states int, mine int64) {
+	res, fl := c.res, c.fl
+	setWorld(w)
+	root := &snode{m: newState()}
+	seen := map[string]bool{root.m.key(): true}
+	frontier := []*snode{root}
+	nstates, edge := 1, 0
+	if fl.Mine(state0) {
+		mine++
+	}
+	perDepth := map[int]int{0: 1}
+	for d := 0; d < depth && len(frontier) > 0; d++ {
+		var nextFrontier []*snode
+		for _, sn := range frontier {
+			setWorld(w)
+			for _, o := range alpha(sn.m) {
+				edge++
+				nm, _ := sn.m.apply(o)
+				k := nm.key()
+				if !seen[k] {
+					seen[k] = true
+					h := append(append([]op(nil), sn.hist...), o)
+					nextFrontier = append(nextFrontier, &snode{m: nm, hist: h, depth: d + 1})
+					if fl.Mine(state0 + nstates) {
+						mine++
+					}
+					nstates++
+					perDepth[d+1]++
+				}
+				if !fl.Mine(edge0 + edge) {
+					continue
+				}
+				mb := member{Hist: sn.hist, Op: o}
+				if w.ID != "classic" {
+					mb.World = w.ID
+				}
+				if sn.m.nontrivial(o) {
+					res.Nontrivial(vlib.Hash(w.ID, sn.m.key(), o.String()))
+				}
+				if edge%1499 == 7 || (len(sn.hist) >= 2 && edge%311 == 0) {
+					res.Sample(map[string]any{"world": w.ID, "history": opsString(sn.hist), "op": o.String(), "model_state_before": sn.m.key(), "model_state_after": nm.key()})
+				}
+				c.check(mb)
+			}
+		}
+		frontier = nextFrontier
+	}
+	pfx := "model_states_at_depth_"
+	if w.ID != "classic" {
+		pfx = w.ID + ":" + pfx
+	}
+	for d, n := range perDepth {
+		if fl.Shard == 0 {
+			res.Counters[fmt.Sprintf("%s%d", pfx, d)] = int64(n)
+		}
+	}
+	if fl.Shard == 0 {
+		res.Counters["edges:"+w.ID] = int64(edge)
+		res.Counters["model_states:"+w.ID] = int64(nstates)
+	}
+	return edge, nstates, mine
 }
 
 func main() {
@@ -194,9 +290,12 @@ func main() {
 	c := &checker{res: res, fl: fl, work: filepath.Join(fl.Work, "inst")}
 	_ = os.MkdirAll(c.work, 0o755)
 	// DAGStore.Find also looks into the current directory: make it an empty one.
+	// (Members of the spelling searches get a working directory of their own, see newInst.)
 	cwd := filepath.Join(fl.Work, "cwd")
 	_ = os.MkdirAll(cwd, 0o755)
 	_ = os.Chdir(cwd)
+	baseCwd = cwd
+	setWorld(classicWorld())
 	if err := calibrate(filepath.Join(fl.Work, "calib")); err != nil {
 		res.CheckError("calibration: %v", err)
 		res.Write(fl.Out)
@@ -235,66 +334,46 @@ func main() {
 	if v := os.Getenv("C18_DEPTH"); v != "" {
 		fmt.Sscanf(v, "%d", &depth)
 	}
+	// the spelling searches: (world, history length)
+	type ssearch struct {
+		world string
+		depth int
+	}
+	spells := []ssearch{{"spell", 4}}
+	if fl.Thorough() {
+		spells = []ssearch{{"spell", 6}, {"spell-wide", 3}}
+	}
+	if v := os.Getenv("C18_SPELL_DEPTH"); v != "" {
+		fmt.Sscanf(v, "%d", &spells[0].depth)
+	}
 	res.Bounds["history_length_le"] = depth
-	res.Bounds["names"] = names
+	res.Bounds["names"] = classicNames
 	res.Bounds["texts"] = textIDs
 
-	// breadth-first search on the model; every edge is executed on the real code by exactly one shard.
-	root := &snode{m: newState()}
-	seen := map[string]bool{root.m.key(): true}
-	frontier := []*snode{root}
-	nstates, edge := 1, 0
-	mine := int64(0)
-	if fl.Mine(0) {
-		mine++
+	only := os.Getenv("C18_ONLY") // dev aid: classic | spell | spell-wide
+	edges, states := 0, 0
+	var mine int64
+	if only == "" || only == "classic" {
+		e, s, m := c.search(classicWorld(), depth, alphabet, edges, states)
+		edges, states, mine = edges+e, states+s, mine+m
 	}
-	perDepth := map[int]int{0: 1}
-	for d := 0; d < depth && len(frontier) > 0; d++ {
-		var nextFrontier []*snode
-		for _, sn := range frontier {
-			for _, o := range alphabet(sn.m) {
-				edge++
-				nm, _ := sn.m.apply(o)
-				k := nm.key()
-				if !seen[k] {
-					seen[k] = true
-					h := append(append([]op(nil), sn.hist...), o)
-					nextFrontier = append(nextFrontier, &snode{m: nm, hist: h, depth: d + 1})
-					if fl.Mine(nstates) {
-						mine++
-					}
-					nstates++
-					perDepth[d+1]++
-				}
-				if !fl.Mine(edge) {
-					continue
-				}
-				mb := member{Hist: sn.hist, Op: o}
-				if sn.m.nontrivial(o) {
-					res.Nontrivial(vlib.Hash(sn.m.key(), o.String()))
-				}
-				if edge%1499 == 7 || (len(sn.hist) >= 2 && edge%311 == 0) {
-					res.Sample(map[string]any{"history": opsString(sn.hist), "op": o.String(), "model_state_before": sn.m.key(), "model_state_after": nm.key()})
-				}
-				c.check(mb)
-			}
+	for _, sp := range spells {
+		if only != "" && only != sp.world {
+			continue
 		}
-		frontier = nextFrontier
+		w := worldByID(sp.world)
+		res.Bounds[sp.world+":history_length_le"] = sp.depth
+		for k, v := range describeWorld(w) {
+			res.Bounds[sp.world+":"+k] = v
+		}
+		e, s, m := c.search(w, sp.depth, spellAlphabet, edges, states)
+		edges, states, mine = edges+e, states+s, mine+m
 	}
 	res.States = mine
-	for d, n := range perDepth {
-		if fl.Shard == 0 {
-			res.Counters[fmt.Sprintf("model_states_at_depth_%d", d)] = int64(n)
-		}
-	}
-	var ks []string
-	for k := range texts {
-		ks = append(ks, k)
-	}
-	sort.Strings(ks)
-	res.Rule = "member = (shortest history reaching a model state, one more operation); every edge of the breadth-first search over the reference model up to the stated history length is executed on a fresh real installation and the full observation vector compared; states are distinct canonical model states (name -> text, name -> number of recorded runs); non-trivial = the operation addresses, or collides with, a DAG that exists in the state it is applied in"
+	res.Rule = "member = (shortest history reaching a model state, one more operation); every edge of the breadth-first search over the reference model up to the stated history length is executed on a fresh real installation and the full observation vector compared; states are distinct canonical model states (name -> text, name -> number of recorded runs); non-trivial = the operation addresses, or collides with, a DAG that exists in the state it is applied in. Classic search: every name spelled one way. Spelling searches (world spell / spell-wide): two logical names, the NAME ARGUMENT of create / save / rename (old and new) / delete spelled in every way of the world, every definition read back (GetDAGSpec, details tab=spec) under every spelling after every operation; states are the model states over the definitions these spellings address"
 	res.Assume("operations are issued sequentially by one client (no concurrent editors); recorded runs are completed runs written through the real history store with distinct time stamps one second apart")
 	res.Assume("whether an EMPTY text is a valid definition is not stated by the property: the model adopts what the real UpdateSpec does with it (observed once per process) and then demands consistency (all-or-nothing)")
+	res.Assume("which stored file a spelling of a name addresses is taken from the unchanged tree (fileLocation / util.AddYamlExtension, table in go/c18/world.go); the property does not say that a spelling other than the bare name has to be accepted: such an operation may be refused if nothing changes")
 	res.Write(fl.Out)
 	os.RemoveAll(fl.Work)
 }
